@@ -60,7 +60,7 @@ func runCase(t *chaingen.Tree, plan []mgrsim.Op) ([]mgrsim.Obs, *failure, map[st
 			expectGone := map[int]bool{}
 			for hh := int64(op.Height) - 1; hh >= 0; hh-- {
 				if hh >= int64(len(prev.Best)) {
-					break // block does not exist: PruneBlocks stops (DESIGN: prune beyond the tip removes nothing)
+					continue // above the tip there is nothing to prune; every best-chain body below the height goes
 				}
 				id := prev.Best[len(prev.Best)-1-int(hh)]
 				if !prev.Known[id].Body {
@@ -131,6 +131,17 @@ func runCase(t *chaingen.Tree, plan []mgrsim.Op) ([]mgrsim.Obs, *failure, map[st
 				}
 			}
 			if needsPruned && o.Err && fmt.Sprint(o.Best) == fmt.Sprint(prev.Best) && bytes.Equal(o.TipState, prev.TipState) {
+				// legitimate only for a fork point below the reported minimum reorg index
+				fork := -1
+				for _, id := range prev.Best {
+					if newBest[id] {
+						fork = id
+						break
+					}
+				}
+				if fork >= 0 && prev.MinReorg >= 0 && s.T.Nodes[fork].Height >= s.T.Nodes[prev.MinReorg].Height {
+					report("c19-reorg-at-or-above-min-reorg-index-refused", "%v: fork point is block %d (height %d), at or above the reported MinReorgIndex %d (height %d), yet the pruned node refused (%s) what the unpruned twin adopted", op, fork, s.T.Nodes[fork].Height, prev.MinReorg, s.T.Nodes[prev.MinReorg].Height, o.ErrText)
+				}
 				stats["reorgs-refused-below-boundary"]++
 				diverged = true
 				break
@@ -197,7 +208,7 @@ func run(c *hx.Ctx) {
 			scs.Plan = small
 			res.Fail(f2.kind, f2.detail, map[string]any{"case": scs})
 		}
-		if len(obs) == len(cs.Plan) {
+		if len(obs) == len(cs.Plan) && !mgrsim.HasTwin(t, cs.Plan) {
 			cases = append(cases, mgrsim.CoqCase(t, cs.Plan, obs))
 		}
 		if len(res.Samples) < 2 {
@@ -220,10 +231,25 @@ func run(c *hx.Ctx) {
 		res.WriteCases("Run.Run_C01", cases)
 		return
 	}
+	// corpus: directed histories, run first
+	for _, cs := range []mgrsim.Case{
+		// prune everything incl. the tip, re-store a lower best-chain block through the pre-validated path,
+		// then fork at that block: MinReorgIndex must not promise a reorg the node cannot do
+		{Seed: 11, Regime: 2, Opts: chaingen.GenOpts{Shape: []int{0, 1, 2, 2, 4}}, Plan: []mgrsim.Op{
+			{Kind: "add", Nodes: []int{1, 2, 3}}, {Kind: "prune", Height: 4}, {Kind: "addv", Nodes: []int{2}}, {Kind: "add", Nodes: []int{4, 5}}}},
+		// prune beyond the tip
+		{Seed: 12, Regime: 0, Opts: chaingen.GenOpts{Shape: []int{0, 1, 2}}, Plan: []mgrsim.Op{
+			{Kind: "add", Nodes: []int{1, 2, 3}}, {Kind: "prune", Height: 9}, {Kind: "prune", Height: 9}}},
+		// re-submission of pruned best-chain blocks, then a deep fork
+		{Seed: 13, Regime: 1, Opts: chaingen.GenOpts{Shape: []int{0, 1, 2, 3, 1, 5, 6, 7, 8}}, Plan: []mgrsim.Op{
+			{Kind: "add", Nodes: []int{1, 2, 3, 4}}, {Kind: "prune", Height: 3}, {Kind: "add", Nodes: []int{2}}, {Kind: "add", Nodes: []int{1, 2, 3}}, {Kind: "add", Nodes: []int{5, 6, 7, 8, 9}}}},
+	} {
+		doCase(cs)
+	}
 	n := c.Scale(200, 5000)
 	for i := 0; i < n; i++ {
 		r := c.R.Fork()
-		cs := mgrsim.Case{Seed: r.U64(), Regime: i % 6, Opts: chaingen.GenOpts{Blocks: 6 + r.Intn(16), Branchiness: 2 + r.Intn(5), TxPerBlock: r.Intn(3), Corruptions: r.Intn(3), Jitter: r.Intn(3), OnInvalid: r.Intn(2)}}
+		cs := mgrsim.Case{Seed: r.U64(), Regime: i % 6, Opts: chaingen.GenOpts{Blocks: 6 + r.Intn(16), Branchiness: 2 + r.Intn(5), TxPerBlock: r.Intn(3), Corruptions: r.Intn(3), Jitter: r.Intn(3), OnInvalid: r.Intn(2), Twins: r.Intn(8) / 7}}
 		if cs.Regime >= 3 && r.Bool() {
 			cs.Opts.Jitter = 4000 // fast and slow blocks: branches diverge in work (near-ties for the 20% rule)
 		}
